@@ -64,10 +64,10 @@ check('C04',
 
 check('C05',
       'Bounded symbolic execution of tokenizer+parser on every input of <= T byte slots (T=4 quick, 5 thorough) over the structural alphabet `1 a ( ) [ ] { } , ; : ? + ! " \' space` plus 30 longer '
-      'skeletons with symbolic separator/closer slots; on every Ok path the token sequence observed at Tokenizer::next is checked by a reference recogniser of the documented grammar (lenient reading). '
+      'skeletons with symbolic separator/closer slots; on every Ok path the token sequence observed at Tokenizer::next is checked by a reference recogniser of the documented grammar (lenient reading). Plus Kani kernel K3 on Tokenizer::expect (Ok implies the token text is the expected one). '
       'Plus the Kani kernel K3 on Tokenizer::expect in C17/C18-style (run under C17? no: run here) .',
       TRUST + ' Oracle: harness/refparse.py in recogniser mode. Outside: inputs longer than T slots, characters outside the alphabet (C01 covers <= 3-4 arbitrary bytes).',
-      'symbolic execution of rustc MIR with z3; reference recogniser on the observed token stream', 'DESIGN.md section 5 C05')
+      'symbolic execution of rustc MIR with z3; reference recogniser on the observed token stream; Kani kernel', 'DESIGN.md section 5 C05', engine='mirsym+kani-kernels')
 
 check('C06',
       'Bounded symbolic execution of parse + exec on 48 statement-sequence templates (all 11 assignment operators, reads, rebinding with changing types, chained/nested assignment, failing statement at each position, '
